@@ -22,6 +22,7 @@ Property oracles (independent of the model, run on every operation of every hist
 import copy
 import itertools
 import json
+import re
 
 import common
 
@@ -342,17 +343,13 @@ def run_op(st, op, idx, problems):
                 pairs.append(i)
             for other in pairs:
                 k = f"wrapper {other}"
-                if before.get(k) != after.get(k) and not shares_by_construction(st, r, other):
+                if before.get(k) != after.get(k):
                     problems.append(f"{where}: {kind} on wrapper {r} changed wrapper {other}, its "
                                     f"{'source' if other == src else 'deep copy / partial evaluation'}: {before.get(k)} -> {after.get(k)}")
         for k, v in before.items():
             if k.startswith("user function") and after.get(k) != v:
                 problems.append(f"{where}: {kind} changed {k}")
     return out
-
-
-def shares_by_construction(st, a, b):
-    return False
 
 
 def judge_eval(st, w, kind, op, env, defaults_before, exc, res, new_hits, problems, where):
@@ -532,11 +529,6 @@ class Gen:
         return None
 
 
-def resolve_pending(op, st):
-    """`["ca", "new", env]` addresses the wrapper the preceding partial evaluation returned (if it did)"""
-    return op
-
-
 # ------------------------------------------------------------------------------------------------
 
 def op_line(op):
@@ -582,10 +574,6 @@ CORPUS = [
 ]
 
 
-def fix_new_refs(ops, lines_so_far=None):
-    return ops
-
-
 def gen_cases(ctx):
     rng = ctx.rng
     n = ctx.scale(2500, 30000)
@@ -623,10 +611,6 @@ def classify(rep, case, lines):
     rep.count(f"history length {len(case['ops'])}")
 
 
-def patch_new(case_ops, st_ws_len_before_pe):
-    return case_ops
-
-
 def run(ctx, rep, cases=None):
     rep.rule = ("seeded histories (length <= 12, plus follow-up calls) over generated signatures (0-6 positional-or-keyword parameters, every "
                 "default-suffix length, names in any order), environments that are shuffled supersets (15 % lack one required name), "
@@ -659,7 +643,41 @@ def run(ctx, rep, cases=None):
                          dict(case, first_difference_at_op=k),
                          lines[k] if k < len(lines) else "<no line>", model[k] if k < len(model) else "<no line>")
         for msg in problems:
-            rep.fail(msg, case)
+            rep.fail(msg, shrink(case, msg) if len(rep.failures) < 5 else case)
+
+
+def op_index(msg):
+    m = re.match(r"op (\d+) ", msg)
+    return int(m.group(1)) if m else None
+
+
+def shrink(case, msg):
+    """structural shrinking: cut the history after the failing operation, then drop earlier operations
+    that create nothing (calls, set/remove_default on other wrappers ...) while the same oracle still fails"""
+    k = op_index(msg)
+    if k is None:
+        return case
+    head = msg.split(":")[1][:40] if ":" in msg else msg[:40]
+
+    def still_fails(ops):
+        c = dict(cls=case["cls"], mode=case["mode"], ops=ops)
+        try:
+            _, probs = execute(json.loads(json.dumps(c)))
+        except Exception:
+            return False
+        return any(op_index(p) == len(ops) - 1 for p in probs)
+
+    ops = case["ops"][:k + 1]
+    if not still_fails(ops):
+        return case
+    i = len(ops) - 2
+    while i >= 0:
+        if ops[i][0] in ("ca", "sd", "rd"):      # removing them does not renumber wrappers or dicts
+            cand = ops[:i] + ops[i + 1:]
+            if still_fails(cand):
+                ops = cand
+        i -= 1
+    return dict(cls=case["cls"], mode=case["mode"], ops=ops, shrunk_from=len(case["ops"]))
 
 
 class Resolver:
